@@ -2,6 +2,7 @@ import Bardolph.Model.Gen
 import Bardolph.Model.Sem
 import Bardolph.Model.Grid
 import Bardolph.Proofs.SemSteps
+import Bardolph.Proofs.Sim
 /-! # C15 — zone and row/column addressing hits exactly the addressed cells (theorems below) -/
 namespace Bardolph
 namespace C15
@@ -405,34 +406,181 @@ theorem doColor_stage_out_of_range (s : State) (m : Matrix) (t b l r : Nat)
 
 /-! ## 3. the one-line form is a block with a single stage -/
 
-/-- **C15_inline_is_single_stage** (code): `set L row … column …` compiles to exactly the
-instructions of `set L begin stage row … column … end`. -/
+/-- **C15_inline_is_single_stage** (code): `set L row … column …` compiles to the instructions of
+`set L begin stage row … column … end` but for one: the block form loads the NAME register again
+after `END matrix` (commands inside a block may have loaded other names; the result of the block
+goes to the light named in the `set`), the one-line form has nothing in between that could. -/
 theorem C15_inline_is_single_stage (n : NameSpec) (rows cols : Option Range) (cf : Bool) :
-    Gen.genOperand (.matrixInline n rows cols cf) =
-      Gen.genOperand (.matrixBlock n (.cons (.stage rows cols cf) .nil)) := by
-  simp [Gen.genOperand, Gen.genBlock, Gen.genStmt, Gen.ins]
+    ∃ pre, Gen.genOperand (.matrixInline n rows cols cf) =
+        pre ++ Gen.ins [.moveq (.operand .matrixLight) (.reg .operand)] ∧
+      Gen.genOperand (.matrixBlock n (.cons (.stage rows cols cf) .nil)) =
+        pre ++ Gen.ins [Gen.genName n, .moveq (.operand .matrixLight) (.reg .operand)] :=
+  ⟨Gen.ins ([Gen.genName n, .matrix] ++ Gen.genMatrixRanges rows cols cf ++ [.color, .endMatrix]),
+    by simp [Gen.genOperand, Gen.ins], by simp [Gen.genOperand, Gen.genBlock, Gen.genStmt, Gen.ins]⟩
+
+/-- the NAME register holds what the name `n` stands for -/
+def NameLoaded (n : NameSpec) (st : Sem.S) : Prop :=
+  match n with
+  | .str x => st.vm.regs .name = .str x
+  | .var x => st.vm.regs .name = st.lookup x
+
+/-- what `Sem.execOperand` does for the name of an operand -/
+def loadName (n : NameSpec) (st : Sem.S) : Sem.S :=
+  match n with
+  | .str x => st.setReg .name (.str x)
+  | .var x => st.setReg .name (st.lookup x)
+
+theorem setReg_same (st : Sem.S) (r : Reg) : st.setReg r (st.vm.regs r) = st := by
+  obtain ⟨vm, l, rt, res⟩ := st
+  simp only [Sem.S.setReg, State.setReg]
+  congr 2
+  funext r'
+  split
+  · rename_i h; rw [h]
+  · rfl
+
+theorem loadName_of_loaded {n : NameSpec} {st : Sem.S} (h : NameLoaded n st) : loadName n st = st := by
+  cases n with
+  | str x => simp only [NameLoaded] at h; simp only [loadName]; rw [← h]; exact setReg_same st .name
+  | var x => simp only [NameLoaded] at h; simp only [loadName]; rw [← h]; exact setReg_same st .name
+
+theorem nameLoaded_loadName (n : NameSpec) (st : Sem.S) : NameLoaded n (loadName n st) := by
+  cases n <;> simp [NameLoaded, loadName, Sem.S.setReg, State.setReg, Sem.S.lookup]
+
+theorem nameLoaded_setReg {n : NameSpec} {st : Sem.S} (h : NameLoaded n st) (r : Reg) (v : Val)
+    (hr : r ≠ .name) : NameLoaded n (st.setReg r v) := by
+  have hr' : ¬ Reg.name = r := fun e => hr e.symm
+  cases n <;> simpa [NameLoaded, Sem.S.setReg, State.setReg, Sem.S.lookup, hr'] using h
+
+/-- a handler that leaves registers, variables and macros alone keeps the name loaded -/
+theorem nameLoaded_device {n : NameSpec} {st st' : Sem.S} {o : Sem.Outcome} (hd : State → State)
+    (h1 : ∀ vm, (hd vm).regs = vm.regs) (h2 : ∀ vm, (hd vm).globals = vm.globals)
+    (h3 : ∀ vm, (hd vm).constants = vm.constants) (h : NameLoaded n st)
+    (he : st.device hd = (o, st')) : NameLoaded n st' := by
+  have key : st'.vm.regs = st.vm.regs ∧ st'.vm.globals = st.vm.globals ∧
+      st'.vm.constants = st.vm.constants ∧ st'.locals = st.locals := by
+    simp only [Sem.S.device] at he
+    split at he <;> (simp only [Prod.mk.injEq] at he; obtain ⟨_, rfl⟩ := he; simp [h1, h2, h3])
+  obtain ⟨k1, k2, k3, k4⟩ := key
+  cases n <;> simpa [NameLoaded, Sem.S.lookup, k1, k2, k3, k4] using h
+
+theorem sendColor_env (s : State) (n raw dur) : (s.sendColor n raw dur).globals = s.globals ∧
+    (s.sendColor n raw dur).constants = s.constants := by
+  simp only [State.sendColor]; split <;> exact ⟨rfl, rfl⟩
+
+theorem foldColor_env (names : List String) (raw dur) (s : State) :
+    (names.foldl (fun st n => if st.status == .running then st.sendColor n raw dur else st) s).globals
+      = s.globals ∧
+    (names.foldl (fun st n => if st.status == .running then st.sendColor n raw dur else st) s).constants
+      = s.constants := by
+  induction names generalizing s with
+  | nil => exact ⟨rfl, rfl⟩
+  | cons n rest ih =>
+    simp only [List.foldl_cons]
+    split
+    · rw [(ih _).1, (ih _).2]; exact sendColor_env s n raw dur
+    · exact ih s
+
+theorem colorMultiple_env (s : State) (names) : (s.colorMultiple names).globals = s.globals ∧
+    (s.colorMultiple names).constants = s.constants := by
+  simp only [State.colorMultiple]
+  split
+  · exact foldColor_env ..
+  · exact ⟨rfl, rfl⟩
+
+theorem doColor_env (s : State) : s.doColor.globals = s.globals ∧ s.doColor.constants = s.constants := by
+  unfold State.doColor
+  repeat' split
+  all_goals try exact colorMultiple_env _ _
+  all_goals try simp only [State.emit, State.fault]
+  all_goals repeat' split
+  all_goals first | exact ⟨rfl, rfl⟩ | simp
+
+theorem matrixI_env (s : State) : (execInstr default s .matrix).globals = s.globals ∧
+    (execInstr default s .matrix).constants = s.constants := by
+  simp only [execInstr]
+  repeat' split
+  all_goals exact ⟨rfl, rfl⟩
+
+theorem inline_block_core (f : Nat) (n : NameSpec) (rows cols : Option Range) (cf : Bool)
+    (s0 : Sem.S) (h0 : NameLoaded n s0) (ld : Sem.S → Sem.S) (hld : ∀ st, NameLoaded n st → ld st = st)
+    (fire : Sem.S → Sem.Outcome × Sem.S)
+    (hkeep : ∀ s1 s2, Sem.evalMatrixRanges f rows cols cf s1 = .ok s2 → NameLoaded n s1 →
+      NameLoaded n s2) :
+    (if ((s0.device fun vm => execInstr default vm Instr.matrix).fst != Sem.Outcome.normal) = true then
+      ((s0.device fun vm => execInstr default vm Instr.matrix).fst,
+        (s0.device fun vm => execInstr default vm Instr.matrix).snd)
+    else
+      match
+        (match
+          (match Sem.evalMatrixRanges f rows cols cf
+              ((s0.device fun vm => execInstr default vm Instr.matrix).snd.setReg
+                Reg.operand (Val.operand Operand.matrix)) with
+          | Except.error o => (o, (s0.device fun vm => execInstr default vm Instr.matrix).snd)
+          | Except.ok s1 => s1.device State.doColor) with
+        | (Sem.Outcome.normal, s') => (Sem.Outcome.normal, s')
+        | r => r) with
+      | (Sem.Outcome.normal, s2) => fire (ld s2)
+      | r => r) =
+    if ((s0.device fun vm => execInstr default vm Instr.matrix).fst != Sem.Outcome.normal) = true then
+      ((s0.device fun vm => execInstr default vm Instr.matrix).fst,
+        (s0.device fun vm => execInstr default vm Instr.matrix).snd)
+    else
+      match Sem.evalMatrixRanges f rows cols cf
+          ((s0.device fun vm => execInstr default vm Instr.matrix).snd.setReg Reg.operand
+            (Val.operand Operand.matrix)) with
+      | Except.error o => (o, (s0.device fun vm => execInstr default vm Instr.matrix).snd)
+      | Except.ok s2 =>
+        match s2.device State.doColor with
+        | (Sem.Outcome.normal, s3) => fire s3
+        | r => r := by
+  generalize hD : s0.device (fun vm => execInstr default vm .matrix) = D0
+  obtain ⟨o1, s1⟩ := D0
+  have h1 : NameLoaded n s1 :=
+    nameLoaded_device _ (fun vm => Sim.matrixI_regs vm default) (fun vm => (matrixI_env vm).1)
+      (fun vm => (matrixI_env vm).2) h0 hD
+  dsimp only
+  split
+  · rfl
+  · generalize hE : Sem.evalMatrixRanges f rows cols cf _ = E
+    have hne := hE ▸ evalMatrixRanges_ne_normal f rows cols cf _
+    cases E with
+    | error o => cases o <;> first | rfl | simp at hne
+    | ok s2 =>
+      have h2 := hkeep _ s2 hE (nameLoaded_setReg h1 .operand _ (by decide))
+      dsimp only
+      generalize hD2 : s2.device State.doColor = D
+      obtain ⟨o, s3⟩ := D
+      have h3 : NameLoaded n s3 :=
+        nameLoaded_device _ (fun vm => Sim.doColor_regs vm) (fun vm => (doColor_env vm).1)
+          (fun vm => (doColor_env vm).2) h2 hD2
+      cases o <;> first | rfl | (dsimp only; rw [hld s3 h3])
 
 /-- **C15_inline_is_single_stage** (source semantics): the two forms have the same outcome and
-leave the same state — same events, same registers — for every action kind, name form, range
-forms and starting state; the block form only spends two more units of fuel on entering the
-block and the statement. -/
+leave the same state — same events, same registers — for every action kind, name form and
+starting state, provided the range operands leave the name alone (`hkeep`: evaluating them does
+not change what `n` stands for — they contain no call that assigns the name's variable or
+commands another light); the block form spends two more units of fuel on entering the block and
+the statement.  (Without the proviso the forms differ since the block form's result goes to the
+light named in the `set`: it loads NAME again after the body.) -/
 theorem C15_inline_is_single_stage_sem (f : Nat) (k : ActKind) (n : NameSpec)
-    (rows cols : Option Range) (cf : Bool) (s : Sem.S) :
+    (rows cols : Option Range) (cf : Bool) (s : Sem.S)
+    (hkeep : ∀ s1 s2, Sem.evalMatrixRanges f rows cols cf s1 = .ok s2 → NameLoaded n s1 →
+      NameLoaded n s2) :
     Sem.execOperand (f + 3) k (.matrixBlock n (.cons (.stage rows cols cf) .nil)) s =
       Sem.execOperand (f + 1) k (.matrixInline n rows cols cf) s := by
   simp only [Sem.execOperand, Sem.execBlock, Sem.execStmt]
-  cases n <;> dsimp only <;>
-  · split
-    · rfl
-    · generalize hE : Sem.evalMatrixRanges f rows cols cf _ = E
-      have hne := hE ▸ evalMatrixRanges_ne_normal f rows cols cf _
-      cases E with
-      | error o => cases o <;> first | rfl | simp at hne
-      | ok s2 =>
-        dsimp only
-        generalize s2.device State.doColor = D
-        obtain ⟨o, s3⟩ := D
-        cases o <;> rfl
+  cases n with
+  | str x =>
+    exact inline_block_core f (.str x) rows cols cf _ (nameLoaded_loadName (.str x) s)
+      (loadName (.str x)) (fun st h => loadName_of_loaded h)
+      (fun st => (st.setReg .operand (.operand .matrixLight)).device
+        (if (k == ActKind.set) = true then State.doColor else State.doPower)) hkeep
+  | var x =>
+    exact inline_block_core f (.var x) rows cols cf _ (nameLoaded_loadName (.var x) s)
+      (loadName (.var x)) (fun st h => loadName_of_loaded h)
+      (fun st => (st.setReg .operand (.operand .matrixLight)).device
+        (if (k == ActKind.set) = true then State.doColor else State.doPower)) hkeep
 
 /-! ## 4. the whole matrix goes out exactly once -/
 
@@ -575,8 +723,8 @@ theorem black_isColor : IsColor [.int 0, .int 0, .int 0, .int 0] :=
 holding any list of stages whose colours (and the saved default, if any) are numbers, the
 final `COLOR` of a `set … begin … end` (or of the one-line form) sends exactly one message (the
 matrix register holding the matrix of THIS light, `m.height = h`, `m.width = w` — as it does unless
-a command inside the block changed the NAME register to another matrix light, in which case the
-machine sends that light the cells of the matrix the block was opened on): a
+a routine called inside the block opened a block of its own on another matrix light, in which case
+the machine sends this light the cells of that other matrix): a
 `setTile` with `h * w` cells; cell `(r, c)` is at index `r * w + c` and carries the colour of
 the last stage containing it converted as `cellWire` says, and the default (black if none was
 saved) where no stage reaches. -/
